@@ -25,3 +25,94 @@ package state
 //@   ensures ghost.histAdds == old(ghost.histAdds) + 1 && ghost.histLast == msg
 //@   ensures [message-is-kept-under-its-type] (@msgType(msg) in bas.messages) && len(bas.messages[@msgType(msg)]) == ite(@msgType(msg) in old(bas.messages), len(old(bas.messages)[@msgType(msg)]), 0) + 1 && bas.messages[@msgType(msg)][len(bas.messages[@msgType(msg)]) - 1] == msg
 //@   ensures [earlier-messages-are-kept] forall t string, i int :: (t in old(bas.messages)) && 0 <= i && i < len(old(bas.messages)[t]) ==> (t in bas.messages) && i < len(bas.messages[t]) && bas.messages[t][i] == old(bas.messages)[t][i]
+
+// ---------------------------------------------------------------------------
+// C15: the message-driven machine.
+// Observations of the state's own methods (interface AsyncState):
+//@ ghost initOK bool
+//@ ghost canMove bool
+//@ ghost lastNextRecv ref
+//@ ghost lastNextResult ref
+//@ ghost nextCalls int
+//@ assume func AsyncState.Initiate
+//@   modifies ghost.initOK
+//@   ensures ghost.initOK == (result == nil)
+//@ assume func AsyncState.CanTransition
+//@   modifies ghost.canMove
+//@   ensures ghost.canMove == result
+//@ assume func AsyncState.Next
+//@   modifies ghost.lastNextRecv, ghost.lastNextResult, ghost.nextCalls
+//@   ensures ghost.lastNextRecv == recv && ghost.lastNextResult == result0 && ghost.nextCalls == old(ghost.nextCalls) + 1
+//@ assume func AsyncState.Receive
+//@   ensures true
+
+// the done signal: a value sent on the channel is the (non-nil) initiation error;
+// the channel is closed only after a successful initiation once the state
+// reports that it can transition
+//@ ghost chan:onDone elem != nil
+//@ func asyncStateTransition
+//@   property C15
+//@   opt noframe 1
+//@   requires currentState != nil
+//@   lit 1
+//@     opt noframe 1
+//@     modifies ghost.initOK, ghost.canMove, ghost.ctxDone
+//@     assert call:close : [done-only-after-successful-initiation-and-can-transition] ghost.initOK && ghost.canMove
+
+//@ func AsyncMachine.Execute
+//@   property C15
+//@   opt noframe 1
+//@   requires am != nil && am.initialState != nil
+//@   modifies ghost.lastNextRecv, ghost.lastNextResult, ghost.nextCalls, ghost.ctxDone
+//@   assert call:AsyncState.Next : [moves-on-only-after-a-done-signal-without-error] err == nil && recv == currentState
+//@   assert call:AsyncState.Receive : [messages-go-to-the-current-state] recv == currentState && arg0 == msg
+//@   assert call:asyncStateTransition@2 : [the-next-state-is-initiated-as-the-current-one] arg2 == currentState && arg2 == nextState
+//@   ensures [ends-in-the-final-state-or-with-an-error] err == nil ==> result0 != nil && result0 == ghost.lastNextRecv && ghost.lastNextResult == nil
+//@   ensures [error-yields-no-state] err != nil ==> result0 == nil
+//@   loop 1 invariant currentState != nil && (ghost.nextCalls > old(ghost.nextCalls) ==> ghost.lastNextResult == currentState)
+
+// ---------------------------------------------------------------------------
+// C14: the block-synchronized machine. delayOf / activeOf are the state's own
+// (constant) durations; ghost.sumDur accumulates the durations of the states
+// entered so far.
+//@ spec func delayOf(s ref) int
+//@ spec func activeOf(s ref) int
+//@ ghost sumDur int
+//@ ghost syncNextRecv ref
+//@ ghost syncNextResult ref
+//@ assume func SyncState.DelayBlocks
+//@   ensures result == @delayOf(recv) && result <= 1000000
+//@ assume func SyncState.ActiveBlocks
+//@   ensures result == @activeOf(recv) && result <= 1000000
+//@ assume func SyncState.Initiate
+//@   ensures true
+//@ assume func SyncState.Receive
+//@   ensures true
+//@ assume func SyncState.Next
+//@   modifies ghost.syncNextRecv, ghost.syncNextResult
+//@   ensures ghost.syncNextRecv == recv && ghost.syncNextResult == result0
+
+//@ func stateTransition
+//@   property C14
+//@   opt noframe 1
+//@   arith math
+//@   requires currentState != nil
+//@   modifies ghost.now, ghost.sumDur
+//@   yields ghost.sumDur = ite(result1 == nil, old(ghost.sumDur) + @delayOf(currentState) + @activeOf(currentState), old(ghost.sumDur))
+//@   assert call:SyncState.Initiate : [initiated-only-after-its-delay-has-passed] ghost.now >= lastStateEndBlockHeight + @delayOf(currentState) && recv == currentState
+//@   ensures [state-ends-at-previous-end-plus-delay-plus-active] err == nil ==> result0 != nil && @isWaiter(result0) && @waiterHeight(result0) == lastStateEndBlockHeight + @delayOf(currentState) + @activeOf(currentState)
+//@   ensures err == nil ==> @delayOf(currentState) >= 0 && @activeOf(currentState) >= 0
+//@   ensures [durations-accumulate] ghost.sumDur == ite(err == nil, old(ghost.sumDur) + @delayOf(currentState) + @activeOf(currentState), old(ghost.sumDur))
+
+//@ func SyncMachine.Execute
+//@   property C14
+//@   opt noframe 1
+//@   arith math
+//@   requires sm != nil && sm.initialState != nil
+//@   modifies ghost.now, ghost.sumDur, ghost.syncNextRecv, ghost.syncNextResult
+//@   assert call:SyncState.Receive : [messages-go-to-the-current-state] recv == currentState && arg0 == msg
+//@   assert call:SyncState.Next : [a-state-ends-exactly-at-its-end-block] recv == currentState && ghost.now >= lastStateEndBlockHeight
+//@   assert call:stateTransition@2 : [the-next-state-starts-where-the-previous-one-ended] arg2 == nextState && arg3 == lastStateEndBlockHeight
+//@   ensures [finishes-at-start-plus-the-total-duration-of-the-states-entered] err == nil ==> result1 == startBlockHeight + (ghost.sumDur - old(ghost.sumDur)) && result0 != nil && result0 == ghost.syncNextRecv && ghost.syncNextResult == nil
+//@   ensures [error-yields-no-state] err != nil ==> result0 == nil && result1 == 0
+//@   loop 1 invariant currentState != nil && blockWaiter != nil && @isWaiter(blockWaiter) && @waiterHeight(blockWaiter) == startBlockHeight + (ghost.sumDur - old(ghost.sumDur)) && ghost.sumDur >= old(ghost.sumDur)
